@@ -67,6 +67,11 @@ def step (d : DSt) (w : List String) : DSt × List String :=
     | some f, some base, some label, some lines =>
       (applyOp d (.decl f { blk := ⟨base, 0⟩, label := label, lines := lines }), [])
     | _, _, _, _ => (d, ["bad-op"])
+  | ["decl", f, base, label, lines, pad] =>       -- a function that arrives with bytecode an earlier profiler had padded
+    match f.toNat?, base.toNat?, label.toNat?, parseInts lines, pad.toNat? with
+    | some f, some base, some label, some lines, some pad =>
+      (applyOp d (.decl f { blk := ⟨base, pad⟩, label := label, lines := lines }), [])
+    | _, _, _, _, _ => (d, ["bad-op"])
   | ["add", f] =>
     match f.toNat? with
     | some f =>
